@@ -31,9 +31,12 @@ RULE = ("data.req on datasets whose inputs list dimension entries in random, mut
         "other-score field (datagen.gen_dataset, see C01); "
         "data.perm: each dataset is re-submitted with every input's time/lead/location entries shuffled, the order of "
         "its stored fields (= the columns of its 4-D arrays) shuffled and the inputs "
-        "rotated (implementation-only metamorphic relation; no rotation when the files give a station different "
+        "given in a random order (any permutation, not only rotations; implementation-only metamorphic relation; no reordering when the files give a station different "
         "metadata and a lat/lon/elevation range is used); data.text: the same dataset through real text files with "
         "shuffled rows and columns and every field kind as a column (obs fcst pit p<t> q<q> e<k> other); "
+        "cli.perm: the csv table of `verif f0 f1 [f2 f3] -m mae|rmse|ets -x AXIS -type csv` through verif.driver.run "
+        "in-process against the same command with the files in another random order: axis cells identical, file columns "
+        "(header and values) permuted along; "
         "non-trivial = a request returns a finite value")
 EXHAUSTIVE = {"quick": False, "thorough": False}
 LEVEL_TEXT = ("Lean theorems: the index used for a common coordinate value is the first position holding that value in the "
@@ -70,6 +73,12 @@ def gen_ops(tier, rng):
             continue
         reqs = dg.all_requests(ds, dims, rng, 25)
         yield "data.req", dg.enc_op(ds, reqs)
+        if k % 6 == 2:
+            # a repeated location id inside one input (first entry is used): matched by value all the same; never
+            # re-submitted with shuffled entries (NoDup)
+            dsr = dg.with_repeated_location(ds, rng)
+            if dg.oracle_dims(dsr) == dims:
+                yield "data.replocs", dg.enc_op(dsr, reqs)
         if not dg.has_repeats(ds):
             yield "data.perm", dg.enc_op(ds, reqs[:12], head="dataperm %d" % rng.randrange(10 ** 6))
             if k % 3 == 0 and not ds.cfg.get("clim"):
@@ -110,3 +119,141 @@ def judge(op, impl_out, spec_out):
 
 
 nontrivial = c01.nontrivial
+
+
+# ------------------------------------------------------------------ cli.perm: file order on the real command line
+# "reordering the files on the command line only permutes the output columns accordingly": the csv table of
+#   verif f0.txt f1.txt f2.txt -m mae|rmse|ets [-r 1] -x <axis> -type csv
+# through verif.driver.run in-process, against the same command with the files in another (seeded, random) order:
+# same header cell and same rows for the axis column, the file columns (header AND values) permuted along.
+CLI_METRICS = [("mae", []), ("rmse", []), ("ets", ["-r", "1"])]
+CLI_AXES = ["leadtime", "time", "location", "lat", "elev", "no", "leadtimeday"]
+
+
+def _cli_ops(tier, rng):
+    n = 12 if tier == "quick" else 150
+    k = 0
+    tries = 0
+    while k < n and tries < 40 * n:
+        tries += 1
+        ds = dg.gen_dataset(rng, n_inputs=rng.choice([2, 3, 3, 4]), with_clim=False, kinds=[], force=("obs",),
+                            missing=rng.choice([0.0, 0.0, 0.1]))
+        if dg.has_repeats(ds) or not dg.meta_agree(ds):
+            continue            # (NoDup / MetaAgree: see ASSUMPTIONS; location metadata are those of the first file)
+        dims = dg.oracle_dims(ds)
+        if dims is None or not all(dims):
+            continue
+        m = CLI_METRICS[k % 3][0]
+        ax = rng.choice(CLI_AXES)
+        yield "cli.perm", dg.enc_op(ds, [(("obs",), 0, "no", None)],
+                                    head="cliperm %d %s %s" % (rng.randrange(10 ** 6), m, ax))
+        k += 1
+
+
+def _run_csv(paths, metric, axis):
+    import contextlib
+    import io
+    import warnings
+    import numpy as np
+    import verif.driver
+    extra = dict(CLI_METRICS)[metric]
+    buf = io.StringIO()
+    try:
+        with contextlib.redirect_stdout(buf), contextlib.redirect_stderr(io.StringIO()), np.errstate(all="ignore"), \
+                warnings.catch_warnings():
+            warnings.simplefilter("ignore")
+            verif.driver.run(["verif"] + list(paths) + ["-m", metric, "-x", axis, "-type", "csv"] + extra)
+    except SystemExit:
+        return "ERR"
+    except Exception as e:
+        return "EXC:" + type(e).__name__
+    lines = [l for l in buf.getvalue().split("\n") if l.strip() and "Warning" not in l]
+    return [l.split(",") for l in lines]
+
+
+def _impl_cliperm(op):
+    import os
+    import random
+    import shutil
+    import tempfile
+    a = op.split(" ")
+    seed, metric, axis = int(a[1]), a[2], a[3]
+    ds, _ = dg.dec_op(" ".join(["data"] + a[4:]))
+    rng = random.Random(seed)
+    d = tempfile.mkdtemp(prefix="verifc02cli")
+    try:
+        paths = []
+        for k, I in enumerate(ds.inputs):
+            p = os.path.join(d, "f%d.txt" % k)
+            dg.write_text(I, p, rng)
+            paths.append(p)
+        order = list(range(len(paths)))
+        while order == list(range(len(paths))):
+            rng.shuffle(order)
+        t0 = _run_csv(paths, metric, axis)
+        t1 = _run_csv([paths[i] for i in order], metric, axis)
+        if isinstance(t0, str) or isinstance(t1, str):
+            return "same" if t0 == t1 else "diff[status %s vs %s]" % (t0 if isinstance(t0, str) else "ok",
+                                                                     t1 if isinstance(t1, str) else "ok")
+        if len(t0) != len(t1) or len(t0) < 2:
+            return "diff[%d rows vs %d rows]" % (len(t0), len(t1))
+        n = len(paths)
+        finite = 0
+        for r, (x, y) in enumerate(zip(t0, t1)):
+            if len(x) != len(y) or len(x) < n + 1:
+                return "diff[row %d: %d vs %d cells, %d files]" % (r, len(x), len(y), n)
+            lead = len(x) - n            # cells of the axis (one; -x location has several)
+            if x[:lead] != y[:lead]:
+                return "diff[row %d axis cells %s -> %s]" % (r, ",".join(x[:lead]), ",".join(y[:lead]))
+            want = [x[lead + i] for i in order]
+            if r == 0 and sorted(x[lead:]) != sorted("f%d.txt" % i for i in range(n)):
+                return "diff[header %s]" % ",".join(x)
+            if y[lead:] != want:
+                return "diff[row %d order %s: %s -> %s, expected %s]" % (
+                    r, "".join(map(str, order)), ",".join(x[lead:]), ",".join(y[lead:]), ",".join(want))
+            if r > 0:
+                finite += sum(1 for c in x[lead:] if c not in ("nan", "", "inf", "-inf"))
+        return "same" if finite else "same(all-nan)"
+    finally:
+        shutil.rmtree(d, ignore_errors=True)
+
+
+_gen_ops0, _impl0, _spec_op0, _judge0, _cmp0, _nontrivial0 = gen_ops, impl, spec_op, judge, cmp, nontrivial
+
+
+def gen_ops(tier, rng):
+    for s in _gen_ops0(tier, rng):
+        yield s
+    for s in _cli_ops(tier, rng):
+        yield s
+
+
+def impl(op):
+    return _impl_cliperm(op) if op.startswith("cliperm ") else _impl0(op)
+
+
+def spec_op(op):
+    return None if op.startswith("cliperm ") else _spec_op0(op)
+
+
+def cmp(op, impl_out, model_out):
+    if op.startswith("cliperm "):
+        return True          # (implementation-only metamorphic relation, decided by judge; the model has no file order)
+    return _cmp0(op, impl_out, model_out)
+
+
+def judge(op, impl_out, spec_out):
+    if op.startswith("cliperm "):
+        if not impl_out.startswith("same"):
+            a = op.split(" ")
+            return ({"kind": "file-order", "metric": a[2]},
+                    "verif <files> -m %s -x %s -type csv: giving the files in another order did not just permute the "
+                    "columns: %s" % (a[2], a[3], impl_out[:400]))
+        return None
+    return _judge0(op, impl_out, spec_out)
+
+
+def nontrivial(op, out):
+    if op.startswith("cliperm "):
+        return out == "same"
+    return _nontrivial0(op, out)
